@@ -406,7 +406,13 @@ public:
     }
 
     void cancel() {
-        if (!_stream.is_open()) return;
+        if (!_stream.is_open()) {
+            // not running: nothing to tear down, but operations
+            // may have been queued since the last run
+            _rec_channel.close();
+            _async_sender.cancel();
+            return;
+        }
 
         _ping_timer.cancel();
         _sentry_timer.cancel();
